@@ -351,9 +351,7 @@ func intLshift(a, b Int) (Object, error) {
 	shift := uint(b)
 	r := a << shift
 	if r>>shift != a {
-		aBig := big.NewInt(int64(a))
-		aBig.Lsh(aBig, shift)
-		return (*BigInt)(aBig), nil
+		return bigLsh(big.NewInt(int64(a)), shift)
 	}
 	return Int(r), nil
 }
